@@ -61,6 +61,9 @@ func NewVerifC08Node(cfg config.Config, root func(uint64, uint64) string,
 		toCommitQ:    rsm.NewTaskQueue(),
 		initializedC: make(chan struct{}),
 	}
+	ssc := make(chan rsm.SSRequest, 1)
+	n.snapshotC = ssc
+	n.pendingSnapshot = newPendingSnapshot(ssc)
 	n.sm = mk(s)
 	return &VerifC08Node{n: n}
 }
@@ -245,3 +248,41 @@ func (v *VerifC08Node) RemoveSnapshotFlagFile(index uint64) error {
 // ProcessOrphans is snapshotter.processOrphans, run by NodeHost.startShard before a
 // replica is (re)started.
 func (v *VerifC08Node) ProcessOrphans() error { return v.n.snapshotter.processOrphans() }
+
+// UserSnapshot is NodeHost.RequestSnapshot as far as the node is concerned:
+// SnapshotOption.Validate, node.requestSnapshot (-> pendingSnapshot.request builds
+// the SSRequest), the step worker's node.handleSnapshot(lastApplied), and, when
+// that pushed a Save task, the snapshot worker's node.save (doSave + the result
+// delivered to the pending request). outcome: invalid | completed | rejected | aborted.
+func (v *VerifC08Node) UserSnapshot(opt SnapshotOption) (index uint64, outcome string, err error) {
+	if err := opt.Validate(); err != nil {
+		return 0, "invalid", nil
+	}
+	rs, err := v.n.requestSnapshot(opt, 1000)
+	if err != nil {
+		return 0, "", err
+	}
+	if v.n.handleSnapshot(v.n.sm.GetLastApplied()) {
+		t, ok := v.n.toApplyQ.Get()
+		if !ok || !t.Save {
+			panic("verif: handleSnapshot did not push a save task")
+		}
+		if err := v.n.save(t); err != nil {
+			return 0, "", err
+		}
+	}
+	select {
+	case r := <-rs.CompletedC:
+		switch {
+		case r.Completed():
+			return r.SnapshotIndex(), "completed", nil
+		case r.Rejected():
+			return 0, "rejected", nil
+		case r.Aborted():
+			return 0, "aborted", nil
+		}
+		return 0, "other", nil
+	default:
+		panic("verif: the snapshot request got no result")
+	}
+}
